@@ -27,25 +27,47 @@ LEVEL_TEXT = ('Table theorems proved by decide over data a translator regenerate
               'theorems (relabelled qubit by qubit under a deformation, C08; validity transfers). The model is tied to the '
               'Flask backend by differential runs through the test client: menus, per-type descriptions, and EVERY field of '
               'every description plus H / logicals / order of /code-data for every menu class x sizes x deformation x picture; '
-              'the statement-level oracle compares /code-data, /decode and /new-errors with direct library calls.')
+              'the statement-level oracle compares /code-data, /decode and /new-errors with direct library calls. '
+              'Library routes (Properties/C20Routes.lean): a Lean model of the glue of _instantiate_code, send_correction, '
+              'send_random_errors, send_decoder_names with the library (class constructors, deform, code.n, PauliErrorModel, decoder '
+              'constructors, decode, generate) as a parameter; proved for ANY library and menus: /decode constructs exactly the objects '
+              'the request names (class with (Lx, Ly) for 2-D - Lz ignored, present or not - or (Lx, Ly, Lz) for 3-D, deform iff the '
+              'deformation is not "None", direction and noise deformation with "None" -> None, decoder class, p, keyword arguments: '
+              'max_bp_iter for BP-OSD and MBP, osd_order=0 and channel_update for BP-OSD, alpha and beta for MBP, nothing else) in the '
+              'order code, error model, decoder, decode(syndrome), and answers the library correction split at code.n; /new-errors '
+              'answers the whole vector generate returned for the named error model and code; a request whose selection fails is never '
+              'answered; the answers depend on the listed request fields only. Regenerated tables (noise_directions, constructor '
+              'signatures of the menu decoders, request bodies and decoder-folder controls of main.js) by decide: every menu code x '
+              'decoder x error model request of the front end selects exactly the named objects; directions sum to 1; every field the '
+              'front end sends is read and every option control reaches exactly the decoders whose constructor has that parameter '
+              '(the repaired defect: channel_update was dropped; old glue kept with regression theorems). Tied to the backend by spies '
+              'on the code / error-model / decoder constructors and calls through the Flask test client (constructor arguments, call '
+              'order, returned JSON, exception kind of malformed requests) and by /new-errors end to end against the route model on top '
+              'of the lattice models and the C07 noise model with planted variates.')
 LEVEL_NOTE = ('trusted: Lean kernel + standard axioms; translator harness/regen_gui.py; the Flask/JSON layer is tested '
               '(compared field by field with the model), not modelled; floats the source computes with numpy (np.pi/4, '
               'np.sqrt(2)/2, z*1.4142, y+-0.9) are symbolic constants of the model, matched by exact float equality with the '
               'same Python operation in the harness; nothing specifies what a drawing should look like (the theorems are about '
               'completeness, order, location and the matrices, not about geometric correctness of normals and angles); error '
               'kinds are compared as "HTTP error" only; menu sizes beyond the bounded set (up to 12) are covered by the all-sizes '
-              'theorems on the model side and by the streams up to 6 (3-D) / 8 (2-D) in the thorough tier; /decode and '
-              '/new-errors are compared with library calls only; the JavaScript front-end is out of scope')
+              'theorems on the model side and by the streams up to 6 (3-D) / 8 (2-D) in the thorough tier; for /decode and '
+              '/new-errors the GLUE is modelled, the library behind it is a parameter: the decoders are not plugged into the route '
+              'model (their models belong to C05 / C10; the oracle compares the answer with the real library decoder), np.array(syndrome) '
+              'is part of the decode parameter (ragged lists not modelled), malformed sizes reach the class constructor and are outside '
+              'the model; of the JavaScript front end only the request bodies and the decoder-folder controls of main.js are read '
+              '(regex translator), the rest is out of scope')
 TECHNIQUE = ('Lean 4 proof by decide over tables regenerated from the source by a translator + generic lookup theorems + '
              'all-sizes theorems about a hand-written model of the representation methods and send_code_data; '
              'differential correspondence through the Flask test client (every field of /code-data)')
-TRUSTED = ['translator harness/regen_gui.py (AST-free: imports the module and reads the JSON; float literals as exact decimals)',
+TRUSTED = ['translator harness/regen_gui.py (AST-free: imports the module and reads the JSON; float literals as exact decimals; '
+           'noise directions as the small fraction whose float they are; constructor signatures by inspect; main.js request bodies by regex)',
+           'spies of the route streams (subclasses of the menu classes / PauliErrorModel recording their arguments, stand-in decoders)',
            'HTTP/JSON layer tested only',
            'float tags: a float of the answer is recognised by exact equality with the Python operation the source performs']
 ASSUMPTIONS = ['supported lattice families of DESIGN.md section 4; menu = _gui.codes/_gui.decoders + main.js (sizes 1..12, coprime L+1)']
 
 
-PROPERTY_MODULES = ['PanqecVerif.Properties.C20', 'PanqecVerif.Properties.C20Repr']
+PROPERTY_MODULES = ['PanqecVerif.Properties.C20', 'PanqecVerif.Properties.C20Repr', 'PanqecVerif.Properties.C20Routes', 'PanqecVerif.Properties.C20RoutesNoise']
 
 
 def regen(ctx):
@@ -190,7 +212,7 @@ def correspondence(ctx):
             ans = ','.join(f"{k}={col.get(k)}" for k in 'IXYZ')
             s_repr.add(f'gui.repr {cls} qubits {pic} -', ans,
                        {'code_name': name, 'size': size, 'rotated': rot, 'what': 'qubit description'}, tag=cls)
-    return [s_menu.run(), s_repr.run()] + code_data_streams(ctx, c)
+    return [s_menu.run(), s_repr.run()] + code_data_streams(ctx, c) + route_streams(ctx)
 
 
 # ------------------------------------------------------------------ /code-data payload vs Model/GuiRepr.lean
@@ -321,6 +343,323 @@ def narrow_mismatches(stream):
             continue
         b = driver([m['op']])[0]
         m['implementation'], m['model'] = (t[:2000] for t in narrow(a, b))
+
+
+# ------------------------------------------------------------------ /decode, /new-errors, /decoder-names vs Model/GuiRoutes.lean
+
+def enc_field(k, v):
+    """one request field as a driver token (Driver/OpsGuiRoutes.lean); None = not expressible"""
+    if isinstance(v, bool):
+        return f'{k}:b:{int(v)}'
+    if isinstance(v, int):
+        return f'{k}:i:{v}'
+    if isinstance(v, float):
+        t = repr(v)
+        if 'e' in t or 'n' in t or '.' not in t:
+            return None
+        ip, fp = t.split('.')
+        m = int(ip.lstrip('-') + fp) * (-1 if t.startswith('-') else 1)
+        return f'{k}:d:{m}/{len(fp)}'
+    if v is None:
+        return f'{k}:n:'
+    if isinstance(v, str):
+        return None if ('~' in v or ':' in v) else f'{k}:s:{esc(v)}'
+    if isinstance(v, list) and all(isinstance(x, int) and not isinstance(x, bool) for x in v):
+        return f'{k}:l:' + ','.join(map(str, v))
+    return None
+
+
+def enc_req(req):
+    toks = [enc_field(k, v) for k, v in req.items()]
+    return None if any(t is None for t in toks) else ' '.join(toks)
+
+
+def frac_str(v):
+    from fractions import Fraction
+    f = Fraction(v).limit_denominator(1000)
+    return str(f) if float(f) == float(v) else 'FLOAT:' + repr(v)
+
+
+class RouteSpies:
+    """spies on everything the routes construct: the code classes of the menu (positional arguments, deform), the
+    PauliErrorModel constructor (and, optionally, a planted `generate`), the decoder constructors and `decode`
+    (planted correction).  The log is the sequence of library calls of one request."""
+
+    def __init__(self):
+        self.log = []
+        self.correction = None      # planted answer of decode
+        self.errors = None          # planted answer of generate (None: the real generate runs)
+
+    def code_class(self, klass):
+        spies = self
+
+        def __init__(self_, *a, **k):
+            if not getattr(self_, '_spy_in_deform', False):
+                spies.log.append(('code', klass.__name__, list(a), dict(k)))
+            klass.__init__(self_, *a, **k)
+
+        def deform(self_, *a, **k):
+            spies.log.append(('deform', list(a), dict(k)))
+            self_._spy_in_deform = True
+            try:
+                return klass.deform(self_, *a, **k)
+            finally:
+                self_._spy_in_deform = False
+        return type(klass.__name__, (klass,), {'__init__': __init__, 'deform': deform})
+
+    def error_model_class(self, klass):
+        spies = self
+
+        def __init__(self_, *a, **k):
+            spies.log.append(('em', list(a), dict(k)))
+            klass.__init__(self_, *a, **k)
+
+        def generate(self_, code, p, *a, **k):
+            spies.log.append(('generate', type(code).__name__, p))
+            if spies.errors is not None:
+                return np.array(spies.errors)
+            return klass.generate(self_, code, p, *a, **k)
+        return type(klass.__name__, (klass,), {'__init__': __init__, 'generate': generate})
+
+    def decoder_class(self, klass):
+        spies = self
+
+        class Spy:
+            allowed_codes = klass.allowed_codes
+
+            def __init__(self_, code, error_model, p, **kwargs):
+                spies.log.append(('dec', klass.__name__, code, error_model, p, dict(kwargs)))
+
+            def decode(self_, syndrome):
+                spies.log.append(('decode', syndrome.tolist() if hasattr(syndrome, 'tolist') else syndrome))
+                return np.array(spies.correction, dtype=int)
+        Spy.__name__ = klass.__name__
+        return Spy
+
+
+def spied_client():
+    """a GUI whose menus hold spy classes; exceptions propagate to the caller (so that their kind can be compared)"""
+    import panqec.gui._gui as G
+    sp = RouteSpies()
+    patches = [mock.patch.dict(G.codes, {n: sp.code_class(k) for n, k in G.codes.items()}),
+               mock.patch.dict(G.decoders, {n: sp.decoder_class(k) for n, k in G.decoders.items()}),
+               mock.patch.object(G, 'PauliErrorModel', sp.error_model_class(G.PauliErrorModel))]
+    for p_ in patches:
+        p_.start()
+    g = G.GUI()
+    g.app.logger.disabled = True
+    g.app.config['PROPAGATE_EXCEPTIONS'] = True
+    return sp, g.app.test_client(), patches
+
+
+def post_kind(c, url, req):
+    """(json, None) or (None, 'ERR <exception class>')"""
+    try:
+        r = c.post(url, json=req)
+    except Exception as e:  # noqa
+        return None, 'ERR ' + type(e).__name__
+    if r.status_code != 200:
+        return None, f'ERR HTTP{r.status_code}'
+    return json.loads(r.data), None
+
+
+def describe_decode_log(log):
+    """the constructor calls of one /decode request in the text of `guiroute decodesel`"""
+    kinds = [e[0] for e in log]
+    want = ['code'] + (['deform'] if 'deform' in kinds else []) + ['em', 'dec', 'decode']
+    if kinds != want:
+        return 'UNEXPECTED CALL SEQUENCE ' + ' '.join(kinds)
+    code = next(e for e in log if e[0] == 'code')
+    deform = next((e for e in log if e[0] == 'deform'), None)
+    em = next(e for e in log if e[0] == 'em')
+    dec = next(e for e in log if e[0] == 'dec')
+    syn = next(e for e in log if e[0] == 'decode')
+    if code[3] or em[2] or (deform is not None and (deform[2] or len(deform[1]) != 1)) or len(em[1]) != 4:
+        return f'UNEXPECTED ARGUMENT FORM code={code} deform={deform} em={em}'
+    obj, emobj = dec[2], dec[3]
+    if type(obj).__name__ != code[1] or list(emobj.direction) != list(em[1][:3]):
+        return 'DECODER GOT ANOTHER CODE / ERROR MODEL OBJECT'
+    return (f"cls={dec[1]} code={code[1]}({','.join(canon_json(a) for a in code[2])}) "
+            f"deform={'-' if deform is None else canon_json(deform[1][0])} "
+            f"dir={','.join(frac_str(x) for x in em[1][:3])} nd={canon_json(em[1][3])} p={canon_json(dec[4])} "
+            f"kw={';'.join(k + '=' + canon_json(v) for k, v in dec[5].items()) or '-'} syn={canon_json(syn[1])}")
+
+
+def small_size(cls):
+    import panqec.codes as C
+    dim = getattr(C, cls).dimension
+    for L in range(2, 5):
+        for s_ in ((L,) * dim, (L + 1,) + (L,) * (dim - 1)):
+            if K.supported(cls, s_):
+                return s_
+    return K.all_sizes(cls, 4, n_max=250)[0]
+
+
+def route_streams(ctx):
+    import panqec.gui._gui as G
+    rng = ctx.np_rng(204)
+    menu_codes = list(G.codes.items())
+    dec_names = list(G.decoders)
+    em_names = list(G.noise_directions)
+    s_sel = Stream('route-decode-constructor-calls-vs-model')
+    s_ans = Stream('route-decode-answer-split-vs-model')
+    s_bad = Stream('route-malformed-requests-error-kind-vs-model')
+    s_spec = Stream('route-new-errors-planted-sample-vs-model')
+    sp, c, patches = spied_client()
+    try:
+        i = 0
+        for name, klass in menu_codes:
+            cls = klass.__name__
+            size = small_size(cls)
+            n = K.qubit_count(cls, size)
+            dnames = ['None'] + list(klass.deformation_names)
+            for dn in dnames:
+                for ndn in dict.fromkeys(['None', dn, (list(klass.deformation_names) + ['None'])[0]]):
+                    picks = [dec_names[(i + j) % len(dec_names)] for j in range(len(dec_names) if ctx.thorough else 3)]
+                    for dec in dict.fromkeys(picks + (['BP-OSD', 'MBP'] if dn == 'None' and ndn == 'None' else [])):
+                        i += 1
+                        em_name = em_names[i % len(em_names)]
+                        req = payload(name, size, dn, False)
+                        del req['rotated_picture']
+                        if klass.dimension == 2 and i % 3 == 0:
+                            del req['Lz']                    # a 2-D code is served without it
+                        elif klass.dimension == 2 and i % 3 == 1:
+                            req['Lz'] = 'not-a-number'        # and whatever it holds
+                        req.update(p=[0.25, 0.5, 0.125, 0.1, 0][i % 5], max_bp_iter=int(rng.integers(1, 1000)),
+                                   alpha=[0.4, 1.25, 2][i % 3], beta=[0, 0.01, 0.5][i % 3],
+                                   channel_update=[True, False, 1, 0, '', 'yes', None, 0.0, [0], []][i % 10],
+                                   syndrome=[int(x) for x in rng.integers(0, 2, 6)],
+                                   noise_deformation_name=ndn, decoder=dec, error_model=em_name)
+                        if i % 11 == 10:
+                            del req['channel_update']        # an older front end: the box defaults to False
+                        length = [2 * n, 2 * n, 2 * n, 2 * n + 1, max(n - 1, 0), 0][i % 6]
+                        sp.correction = [int(x) for x in rng.integers(0, 2, length)]
+                        sp.log.clear()
+                        got, err = post_kind(c, '/decode', req)
+                        inp = {'route': '/decode', 'request': req, 'planted_correction_length': length, 'n': n}
+                        tag = f'{cls}/{dec}'
+                        enc = enc_req(req)
+                        s_sel.add(f'guiroute decodesel {enc}', err or guarded(lambda: describe_decode_log(sp.log)), inp, tag=tag)
+                        s_ans.add(f"guiroute decode {n} {','.join(map(str, sp.correction)) or '-'} {enc}",
+                                  err or canon_json(got), inp, nontrivial=length > 0, tag=tag)
+        # --- planted samples: the answer is the whole vector; the discarded error_spec comprehension can raise
+        for name, klass in menu_codes[:: (1 if ctx.thorough else 3)]:
+            cls = klass.__name__
+            size = small_size(cls)
+            n = K.qubit_count(cls, size)
+            for kind in ('binary', 'two', 'short', 'long', 'empty'):
+                v = [int(x) for x in rng.integers(0, 2, 2 * n)]
+                if kind == 'two':
+                    v[int(rng.integers(0, 2 * n))] = 2
+                elif kind == 'short':
+                    v = v[: int(rng.integers(n, 2 * n))]
+                elif kind == 'long':
+                    v = v + [0, 1, 1]
+                elif kind == 'empty':
+                    v = []
+                sp.errors = v
+                req = payload(name, size, 'None', False, p=0.25, noise_deformation_name='None', error_model='Pure Y')
+                del req['rotated_picture']
+                sp.log.clear()
+                got, err = post_kind(c, '/new-errors', req)
+                s_spec.add(f"guiroute newerrors-planted {n} {','.join(map(str, v)) or '-'} {enc_req(req)}",
+                           err or canon_json(got), {'route': '/new-errors', 'request': req, 'planted_sample': kind, 'n': n},
+                           tag=f'{kind}')
+            sp.errors = None
+        # --- malformed requests: which exception, decided by the order in which the route reads and looks up
+        base = payload('Toric 3D', (2, 2, 2), 'None', False, p=0.25, max_bp_iter=5, alpha=0.4, beta=0, syndrome=[0, 1],
+                       noise_deformation_name='None', decoder='BP-OSD', error_model='Pure X')
+        del base['rotated_picture']
+        base2 = dict(base, code_name='Planar 2D')
+        sp.correction = [0] * 8
+        variants = []
+        for b_, lab in ((base, '3d'), (base2, '2d')):
+            for k in b_:
+                variants.append(({x: y for x, y in b_.items() if x != k}, f'{lab}-without-{k}'))
+            variants += [(dict(b_, code_name='No Such Code'), f'{lab}-unknown-code'), (dict(b_, code_name=[1]), f'{lab}-code-name-list'),
+                         (dict(b_, code_name=3), f'{lab}-code-name-int'), (dict(b_, error_model='Biased'), f'{lab}-unknown-error-model'),
+                         (dict(b_, error_model=[1]), f'{lab}-error-model-list'), (dict(b_, error_model=None), f'{lab}-error-model-null'),
+                         (dict(b_, decoder='Magic'), f'{lab}-unknown-decoder'), (dict(b_, decoder=[2]), f'{lab}-decoder-list'),
+                         (dict(b_, decoder='Magic', error_model=[1]), f'{lab}-error-model-list-and-unknown-decoder'),
+                         (dict(b_, code_name='Nope', error_model='Biased'), f'{lab}-unknown-code-and-error-model'),
+                         ({x: y for x, y in dict(b_, code_name='Nope').items() if x != 'p'}, f'{lab}-unknown-code-without-p'),
+                         (dict(b_, Toric2DCode=1, extra='ignored'), f'{lab}-extra-fields'),
+                         (dict(b_, channel_update=True), f'{lab}-box-ticked'), (dict(b_, channel_update='x', decoder='MBP'), f'{lab}-box-mbp')]
+        n_of = {'Toric 3D': K.qubit_count('Toric3DCode', (2, 2, 2)), 'Planar 2D': K.qubit_count('Planar2DCode', (2, 2))}
+        for req, lab in variants:
+            enc = enc_req(req)
+            n_real = n_of.get(req.get('code_name') if isinstance(req.get('code_name'), str) else None, 4)
+            plant = [int(x) for x in rng.integers(0, 2, 2 * n_real)]
+            for url, op in (('/decode', 'decode'), ('/new-errors', 'newerrors-planted')):
+                sp.correction, sp.errors = plant, plant
+                got, err = post_kind(c, url, req)
+                s_bad.add(f"guiroute {op} {n_real} {','.join(map(str, plant))} {enc}", err or canon_json(got),
+                          {'route': url, 'request': req, 'what': lab},
+                          nontrivial=err is not None, tag=f'{url}:{lab.split("-", 1)[1]}')
+            sp.errors = None
+        for req, lab in [({'code_name': 'Toric 2D'}, 'known'), ({'code_name': 'Nope'}, 'unknown'), ({}, 'missing'),
+                         ({'code_name': [2]}, 'list'), ({'code_name': None}, 'null'), ({'code_name': 'XCube', 'x': 1}, 'extra')]:
+            got, err = post_kind(c, '/decoder-names', req)
+            s_bad.add(f'guiroute decodernames {enc_req(req)}'.rstrip(), err or ('|'.join(got) or '-'),
+                      {'route': '/decoder-names', 'request': req}, tag='/decoder-names:' + lab)
+        for dim in (2, 3, '2', '3', 2.0, True, None, 4, '2d', [2]):
+            req = {'dimension': dim}
+            got, err = post_kind(c, '/code-names', req)
+            s_bad.add(f'guiroute codenames {enc_req(req)}', err or ('|'.join(got) or '-'),
+                      {'route': '/code-names', 'request': req}, tag='/code-names')
+        got, err = post_kind(c, '/code-names', {})
+        s_bad.add('guiroute codenames', err or '|'.join(got), {'route': '/code-names', 'request': {}}, tag='/code-names')
+    finally:
+        for p_ in patches:
+            p_.stop()
+    return [s_.run() for s_ in (s_sel, s_ans, s_spec, s_bad)] + [new_errors_stream(ctx)]
+
+
+class StubRng:
+    """what `np.random.default_rng()` returns while /new-errors runs: `random()` yields the planted variates"""
+
+    def __init__(self, us):
+        self.us = list(us)
+
+    def random(self):
+        return self.us.pop(0)
+
+
+def new_errors_stream(ctx):
+    """/new-errors end to end (real codes, real PauliErrorModel) against the route model on top of the lattice models
+    and the noise model: the variates `rng.random()` returns are planted dyadics k/64, the rates are dyadic"""
+    import panqec.gui._gui as G
+    from fractions import Fraction
+    rng = ctx.np_rng(205)
+
+    def err_post(op, out):
+        return 'ERR' if out.startswith('ERR') else out
+    s_ = Stream('route-new-errors-sample-vs-lattice-and-noise-models', post=err_post)
+    g, c = client()
+    em_names = list(G.noise_directions)
+    i = 0
+    for name, klass in G.codes.items():
+        cls = klass.__name__
+        size = small_size(cls)
+        n = K.qubit_count(cls, size)
+        if n > (400 if ctx.thorough else 130):
+            continue
+        dnames = ['None'] + list(klass.deformation_names)
+        for dn in dnames:
+            for ndn in dict.fromkeys(dnames + ['XZZX']):
+                for em_name in (em_names if (ctx.thorough or ndn != 'None') else em_names[:2]):
+                    i += 1
+                    p = [0.25, 0.5, 0.125, 0.75, 0, 1][i % 6]
+                    ks = [int(x) for x in rng.integers(0, 64, n)]
+                    req = payload(name, size, dn, False, p=p, noise_deformation_name=ndn, error_model=em_name)
+                    del req['rotated_picture']
+                    with mock.patch('numpy.random.default_rng', side_effect=lambda *a, **k: StubRng(k_ / 64 for k_ in ks)):
+                        got, status = post(c, '/new-errors', req)
+                    us = ','.join(str(Fraction(k_, 64)) for k_ in ks)
+                    s_.add(f'guiroute newerrors {us} {enc_req(req)}', 'ERR' if got is None else canon_json(got),
+                           {'route': '/new-errors', 'request': req, 'variates_times_64': ks},
+                           nontrivial=got is not None and any(got), tag=f"{cls}/{'deformed-noise' if ndn != 'None' else 'plain'}")
+    return s_.run()
 
 
 # ------------------------------------------------------------------ oracle
@@ -472,6 +811,50 @@ def check_decode_and_errors(ctx, c_app, deep):
     return fails, n
 
 
+def check_channel_update(ctx, c_app, deep):
+    """the "Channel update (BP)" box of the menu: /decode with the box ticked / unticked must return what the library
+    BP-OSD decoder returns with channel_update=True / False (defect repaired by the PENDING fix: the box was ignored)"""
+    import panqec.gui._gui as G
+    from panqec.error_models import PauliErrorModel
+    from panqec.decoders import BeliefPropagationOSDDecoder
+    fails, n, sensitive = [], 0, 0
+    rng = ctx.np_rng(206)
+    for name, size, em_name in ([('Toric 2D', (4, 4), 'Depolarizing'), ('Planar 2D', (4, 4), 'Depolarizing')] +
+                                ([('Toric 2D', (6, 6), 'Depolarizing'), ('Toric 3D', (3, 3, 3), 'Pure Z')] if deep else [])):
+        klass = G.codes[name]
+        code = K.build(klass.__name__, size)
+        em = PauliErrorModel(*G.noise_directions[em_name])
+        for t in range(12 if deep else 6):
+            e = em.generate(code, 0.1, rng=rng)
+            syn = [int(x) for x in code.measure_syndrome(e)]
+            want = {}
+            for cu in (False, True):
+                want[cu] = [int(x) for x in BeliefPropagationOSDDecoder(code, em, 0.1, max_bp_iter=20, osd_order=0,
+                                                                         channel_update=cu).decode(np.array(syn))]
+            sensitive += want[False] != want[True]
+            for cu in (False, True):
+                n += 1
+                pl = payload(name, size, 'None', False, syndrome=syn, p=0.1, noise_deformation_name='None', max_bp_iter=20,
+                             alpha=0.4, beta=0, channel_update=cu, decoder='BP-OSD', error_model=em_name)
+                try:
+                    got, status = post(c_app, '/decode', pl)
+                    if got is None:
+                        msg = f'/decode returned HTTP {status}'
+                    elif got['x'] + got['z'] != want[cu]:
+                        msg = (f'/decode with the "Channel update (BP)" box {"ticked" if cu else "unticked"} differs from the '
+                               f'library BP-OSD decoder with channel_update={cu}' +
+                               (' (it equals the answer for the other value of the box)' if got['x'] + got['z'] == want[not cu] else ''))
+                    else:
+                        msg = None
+                except Exception as ex:  # noqa
+                    msg = f'raised {type(ex).__name__}: {ex}'
+                if msg:
+                    fails.append({'input': {'kind': 'decode-option', 'option': 'channel_update', 'code_name': name,
+                                            'size': list(size), 'error_model': em_name, 'syndrome': syn, 'channel_update': cu},
+                                  'observed': msg, 'match': {'kind': 'decode-option', 'option': 'channel_update'}})
+    return fails[:1], n, sensitive
+
+
 def oracle(ctx, deep=False, broken=None):
     g, c = client()
     reqs = [{'code_name': n, 'class': cl, 'size': list(s), 'deformation': dn, 'rotated': rot}
@@ -495,7 +878,9 @@ def oracle(ctx, deep=False, broken=None):
     fails += check_decoders(c)
     f2, n2 = check_decode_and_errors(ctx, c, deep)
     fails += f2
-    return fails, {'evaluations': len(reqs) + n2 + 16}
+    f3, n3, sensitive = check_channel_update(ctx, c, deep)
+    fails += f3
+    return fails, {'evaluations': len(reqs) + n2 + n3 + 16, 'channel_update_sensitive_syndromes': sensitive}
 
 
 def replay(ctx, payload_):
@@ -505,4 +890,6 @@ def replay(ctx, payload_):
         return bool(check_decoders(c))
     if inp.get('kind') == 'decode':
         return bool(check_decode_and_errors(ctx, c, True)[0])
+    if inp.get('kind') == 'decode-option':
+        return bool(check_channel_update(ctx, c, True)[0])
     return check_request(c, inp) is not None
